@@ -9,7 +9,7 @@ PROPS['C02'] = dict(
                'and only while K is bounded; elsewhere unit norm, finiteness and distinctness are asserted. Reference spectra from Eigen EigenSolver<long double>.',
     units=real_units('c02', 'c02_gen.cpp'),
     runs=dict(
-        quick=[dict(unit='c02_d', cases=3000, workers=2), dict(unit='c02_f', cases=3000, workers=1), dict(unit='c02_l', cases=3000, workers=1)],
+        quick=[dict(unit='c02_d', cases=6000, workers=2), dict(unit='c02_f', cases=6000, workers=1), dict(unit='c02_l', cases=6000, workers=1)],
         thorough=[dict(unit='c02_d', cases=30000, workers=8, set=dict(nmax=64)), dict(unit='c02_f', cases=30000, workers=4, set=dict(nmax=48)), dict(unit='c02_l', cases=30000, workers=4, set=dict(nmax=48))],
     ),
     min=dict(quick=dict(cases=10000, nontrivial=3000, classes={'complex_pairs_returned': 300, 'history_with_2+_computes': 500, 'distinctness_decided': 300,
